@@ -74,6 +74,7 @@ pub struct Lua {
     /// call-site name of the native function being called (for 'bad argument' messages)
     pub call_name: Option<LStr>,
     pub call_is_method: bool,
+    pub compat_ipairs: bool,
     for_iter_name: LStr,
 }
 
@@ -87,9 +88,55 @@ fn stack_addr() -> usize {
     &x as *const u8 as usize
 }
 
+/// Lowest address of the current thread's stack (glibc only), cached per thread.
+#[cfg(all(target_os = "linux", target_env = "gnu"))]
+fn thread_stack_low() -> Option<usize> {
+    #[repr(C, align(16))]
+    struct Attr([u8; 128]); // pthread_attr_t is 56 bytes on 64-bit glibc
+    extern "C" {
+        fn pthread_self() -> usize;
+        fn pthread_getattr_np(thread: usize, attr: *mut Attr) -> i32;
+        fn pthread_attr_getstack(attr: *const Attr, addr: *mut *mut u8, size: *mut usize) -> i32;
+        fn pthread_attr_destroy(attr: *mut Attr) -> i32;
+    }
+    thread_local! {
+        static LOW: std::cell::Cell<Option<Option<usize>>> = const { std::cell::Cell::new(None) };
+    }
+    LOW.with(|c| {
+        if let Some(v) = c.get() {
+            return v;
+        }
+        // SAFETY: plain glibc calls on a zero-initialised, sufficiently large and
+        // aligned attribute object that is destroyed before returning.
+        let v = unsafe {
+            let mut a = Attr([0; 128]);
+            if pthread_getattr_np(pthread_self(), &mut a) != 0 {
+                None
+            } else {
+                let mut addr: *mut u8 = std::ptr::null_mut();
+                let mut size: usize = 0;
+                let r = pthread_attr_getstack(&a, &mut addr, &mut size);
+                pthread_attr_destroy(&mut a);
+                if r != 0 || addr.is_null() {
+                    None
+                } else {
+                    Some(addr as usize)
+                }
+            }
+        };
+        c.set(Some(v));
+        v
+    })
+}
+
+#[cfg(not(all(target_os = "linux", target_env = "gnu")))]
+fn thread_stack_low() -> Option<usize> {
+    None
+}
+
 impl Lua {
     pub fn new_state() -> Lua {
-        let globals = Rc::new(RefCell::new(Table::with_capacity(0, 64)));
+        let globals = Rc::new(RefCell::new(Table::with_capacity(0, 250)));
         let env_cell = UpCell::new(Value::Table(globals.clone()));
         let mut lua = Lua {
             stack: Vec::with_capacity(256),
@@ -113,6 +160,7 @@ impl Lua {
             stream_stdout: false,
             call_name: None,
             call_is_method: false,
+            compat_ipairs: false,
             for_iter_name: Rc::from(&b"for iterator"[..]),
         };
         crate::stdlib::open_libs(&mut lua);
@@ -181,6 +229,16 @@ impl Lua {
     #[inline]
     pub fn tick(&mut self) -> R<()> {
         self.used += 1;
+        if self.used > self.limit {
+            return Err(self.budget_error());
+        }
+        Ok(())
+    }
+
+    /// charge `n` instructions at once (long-running native loops)
+    #[inline]
+    pub fn tick_n(&mut self, n: u64) -> R<()> {
+        self.used = self.used.saturating_add(n);
         if self.used > self.limit {
             return Err(self.budget_error());
         }
@@ -344,7 +402,16 @@ impl Lua {
         self.stack.clear();
         self.ci.clear();
         self.stack_anchor = stack_addr();
+        // never trust the configured limit beyond what this thread really has
+        let configured = self.native_stack_limit;
+        if let Some(low) = thread_stack_low() {
+            if self.stack_anchor > low {
+                let avail = (self.stack_anchor - low).saturating_sub(64 * 1024);
+                self.native_stack_limit = configured.min(avail);
+            }
+        }
         let r = self.call_value(Value::Func(cl), 0);
+        self.native_stack_limit = configured;
         self.stack.clear();
         self.ci.clear();
         r.map(|_| ())
@@ -453,8 +520,8 @@ impl Lua {
                 return Ok(());
             }
             if g.meta.is_none() {
-                g.set_str(name, v);
-                if let Some(ix) = g.find_str(name) {
+                let ix = g.set_str(name, v);
+                if ix != usize::MAX {
                     fr.inst.gcache[k as usize].set(ix as u32);
                 }
                 return Ok(());
@@ -608,33 +675,67 @@ impl Lua {
                     self.set_global(fr, *k, v, *line)?;
                 }
                 Expr::Field(o, k, l) => {
-                    let ov = self.eval(fr, o)?;
+                    // locals / upvalues are register references: read at store time
+                    let late = matches!(**o, Expr::Local(..) | Expr::Upval(_));
+                    let mut ov = if late { Value::Nil } else { self.eval(fr, o)? };
                     let v = self.eval(fr, expr)?;
+                    if late {
+                        ov = self.eval(fr, o)?;
+                    }
                     let key = Value::Str(fr.inst.const_str(*k).clone());
                     self.set_index_checked(fr, ov, key, v, o, *l)?;
                 }
                 Expr::Index(ok, l) => {
-                    let ov = self.eval(fr, &ok.0)?;
-                    let kv = self.eval(fr, &ok.1)?;
+                    let late_o = matches!(ok.0, Expr::Local(..) | Expr::Upval(_));
+                    let late_k = matches!(ok.1, Expr::Local(..));
+                    let mut ov = if late_o { Value::Nil } else { self.eval(fr, &ok.0)? };
+                    let mut kv = if late_k { Value::Nil } else { self.eval(fr, &ok.1)? };
                     let v = self.eval(fr, expr)?;
+                    if late_o {
+                        ov = self.eval(fr, &ok.0)?;
+                    }
+                    if late_k {
+                        kv = self.eval(fr, &ok.1)?;
+                    }
                     self.set_index_checked(fr, ov, kv, v, &ok.0, *l)?;
                 }
                 _ => return Err(self.rt_error("cannot assign")),
             },
             Stmt::Assign { targets, exprs, line } => {
                 let start = self.stack.len();
-                // evaluate table/key operands of the targets first
-                for t in targets.iter() {
+                // Operands of indexed targets: expressions are evaluated now; locals and
+                // upvalues are register references in real Lua and are read when the store
+                // executes - unless a later target of this statement assigns that very
+                // variable (then lparser's check_conflict makes an early copy).
+                let is_late = |e: &Expr, j: usize, key: bool| -> bool {
+                    let same = |t: &Expr| match (e, t) {
+                        (Expr::Local(a, _), Expr::Local(b, _)) => a == b,
+                        (Expr::Upval(a), Expr::Upval(b)) => a == b,
+                        _ => false,
+                    };
+                    match e {
+                        Expr::Local(..) => !targets[j + 1..].iter().any(same),
+                        Expr::Upval(_) => !key && !targets[j + 1..].iter().any(same),
+                        _ => false,
+                    }
+                };
+                for (j, t) in targets.iter().enumerate() {
                     match t {
                         Expr::Field(o, _, _) => {
-                            let ov = self.eval(fr, o)?;
-                            self.stack.push(ov);
+                            if !is_late(o, j, false) {
+                                let ov = self.eval(fr, o)?;
+                                self.stack.push(ov);
+                            }
                         }
                         Expr::Index(ok, _) => {
-                            let ov = self.eval(fr, &ok.0)?;
-                            self.stack.push(ov);
-                            let kv = self.eval(fr, &ok.1)?;
-                            self.stack.push(kv);
+                            if !is_late(&ok.0, j, false) {
+                                let ov = self.eval(fr, &ok.0)?;
+                                self.stack.push(ov);
+                            }
+                            if !is_late(&ok.1, j, true) {
+                                let kv = self.eval(fr, &ok.1)?;
+                                self.stack.push(kv);
+                            }
                         }
                         _ => {}
                     }
@@ -652,15 +753,28 @@ impl Lua {
                         Expr::Upval(u) => fr.cl.upvals[*u as usize].set(v),
                         Expr::Global(k) => self.set_global(fr, *k, v, *line)?,
                         Expr::Field(o, k, l) => {
-                            opnd -= 1;
-                            let ov = std::mem::take(&mut self.stack[opnd]);
+                            let ov = if is_late(o, i, false) {
+                                self.eval(fr, o)?
+                            } else {
+                                opnd -= 1;
+                                std::mem::take(&mut self.stack[opnd])
+                            };
                             let key = Value::Str(fr.inst.const_str(*k).clone());
                             self.set_index_checked(fr, ov, key, v, o, *l)?;
                         }
                         Expr::Index(ok, l) => {
-                            opnd -= 2;
-                            let ov = std::mem::take(&mut self.stack[opnd]);
-                            let kv = std::mem::take(&mut self.stack[opnd + 1]);
+                            let kv = if is_late(&ok.1, i, true) {
+                                self.eval(fr, &ok.1)?
+                            } else {
+                                opnd -= 1;
+                                std::mem::take(&mut self.stack[opnd])
+                            };
+                            let ov = if is_late(&ok.0, i, false) {
+                                self.eval(fr, &ok.0)?
+                            } else {
+                                opnd -= 1;
+                                std::mem::take(&mut self.stack[opnd])
+                            };
                             self.set_index_checked(fr, ov, kv, v, &ok.0, *l)?;
                         }
                         _ => return Err(self.rt_error("cannot assign")),
@@ -910,8 +1024,17 @@ impl Lua {
                 self.index_checked(fr, ov, &key, o, *line)
             }
             Expr::Index(ok, line) => {
-                let ov = self.eval(fr, &ok.0)?;
-                let kv = self.eval(fr, &ok.1)?;
+                // table held in a local / upvalue: read after the key (register reference)
+                let (ov, kv) = match &ok.0 {
+                    Expr::Local(..) | Expr::Upval(_) => {
+                        let kv = self.eval(fr, &ok.1)?;
+                        (self.eval(fr, &ok.0)?, kv)
+                    }
+                    _ => {
+                        let ov = self.eval(fr, &ok.0)?;
+                        (ov, self.eval(fr, &ok.1)?)
+                    }
+                };
                 if let Value::Table(t) = &ov {
                     let t = t.borrow();
                     let v = t.get(&kv);
@@ -930,8 +1053,20 @@ impl Lua {
             }
             Expr::Function(p) => Ok(self.make_closure(fr, *p)),
             Expr::Bin(op, ab, line) => {
-                let a = self.eval(fr, &ab.0)?;
-                let b = self.eval(fr, &ab.1)?;
+                // A local variable operand is a register reference in real Lua: it is
+                // read when the operation executes, i.e. after the other operand.
+                let left = match &ab.0 {
+                    Expr::Paren(inner) => &**inner,
+                    e => e,
+                };
+                let (a, b) = if let Expr::Local(s, _) = left {
+                    let b = self.eval(fr, &ab.1)?;
+                    self.tick()?;
+                    (self.get_local(fr.base + *s as usize), b)
+                } else {
+                    let a = self.eval(fr, &ab.0)?;
+                    (a, self.eval(fr, &ab.1)?)
+                };
                 self.binary(fr, *op, a, b, &ab.0, &ab.1, *line)
             }
             Expr::And(ab) => {
@@ -1040,37 +1175,28 @@ impl Drop for Lua {
     fn drop(&mut self) {
         self.stack.clear();
         self.require_handler = None;
+        // Hold a strong reference to every live table / cell while their contents
+        // are released: nothing is freed recursively and all cycles are broken.
         let tables: Vec<TableRef> = self.tables.drain(..).filter_map(|w| w.upgrade()).collect();
         let cells: Vec<Rc<UpCell>> = self.cells.drain(..).filter_map(|w| w.upgrade()).collect();
-        let mut garbage: Vec<Value> = Vec::new();
-        let mut metas: Vec<TableRef> = Vec::new();
-        let sweep = |t: &TableRef, garbage: &mut Vec<Value>, metas: &mut Vec<TableRef>| {
+        let sweep = |t: &TableRef| {
             if let Ok(mut tb) = t.try_borrow_mut() {
-                let (a, e, m) = tb.clear_all();
-                garbage.extend(a);
-                for en in e {
-                    garbage.push(en.key);
-                    garbage.push(en.val);
-                }
-                if let Some(m) = m {
-                    metas.push(m);
-                }
+                let parts = tb.clear_all();
+                drop(tb);
+                drop(parts);
             }
         };
-        sweep(&self.globals.clone(), &mut garbage, &mut metas);
+        sweep(&self.globals.clone());
         if let Some(sm) = self.string_meta.take() {
-            sweep(&sm, &mut garbage, &mut metas);
+            sweep(&sm);
         }
         for t in tables.iter() {
-            sweep(t, &mut garbage, &mut metas);
+            sweep(t);
         }
         for c in cells.iter() {
-            garbage.push(c.get());
             c.set(Value::Nil);
         }
         self.env_cell.set(Value::Nil);
-        drop(garbage);
-        drop(metas);
         drop(tables);
         drop(cells);
     }
